@@ -29,6 +29,7 @@ PROPS = {
     "C01": dict(run="^TestC01$", shards=(4, 16), deadline=(300, 2400)),
     "C04": dict(run="^TestC04$", shards=(4, 16), deadline=(300, 1800)),
     "C05": dict(run="^TestC05$", shards=(4, 16), deadline=(300, 1800)),
+    "C06": dict(run="^TestC06$", shards=(4, 16), deadline=(300, 1800)),
     "C12": dict(run="^TestC12$", shards=(4, 16), deadline=(300, 1800)),
     "C16": dict(run="^TestC16$", shards=(4, 16), deadline=(300, 1800)),
     "C17": dict(run="^TestC17$", shards=(4, 16), deadline=(300, 1800)),
@@ -285,7 +286,7 @@ def check(prop, tier, replay=None):
         fail_files = sorted(f for f in os.listdir(out_dir) if f.startswith("fail-"))
         for i, p, _ in procs:
             if p.returncode != 0:
-                with open(os.path.join(out_dir, "log-%d.txt" % i)) as f:
+                with open(os.path.join(out_dir, "log-%d.txt" % i), errors="replace") as f:
                     txt = f.read()
                 mine = [f for f in fail_files if f.endswith("-%d.json" % i)]
                 if not mine and not timed_out:
